@@ -24,11 +24,12 @@ def one(name, pids, tier):
             if r.returncode != 0:
                 return name, {'apply': 'FAILED ' + r.stderr[-200:]}
         for pid in pids:
-            p = subprocess.run([os.path.join(ROOT, 'check'), pid, '--tier', tier, '--repo', scratch, '--no-canaries'], capture_output=True, text=True)
+            env = dict(os.environ, PYVC_EVIDENCE_DIR=os.path.join(scratch, '_evidence'))
+            p = subprocess.run([os.path.join(ROOT, 'check'), pid, '--tier', tier, '--repo', scratch, '--no-canaries'], capture_output=True, text=True, env=env)
             lines = [l for l in p.stdout.splitlines() if l.startswith(('VIOLATION', 'UNDECIDED', 'CHECKER-ERROR', 'KNOWN'))]
             ev = {}
             try:
-                ev = json.load(open(os.path.join(ROOT, 'evidence_scratch', pid + '.json')))
+                ev = json.load(open(os.path.join(scratch, '_evidence', pid + '.json')))
             except Exception:
                 pass
             cov = ev.get('coverage', {})
@@ -51,22 +52,30 @@ def main():
     if a.only:
         names = [n for n in names if n in a.only.split(',')]
     res = {}
+    work = []
     for n in names:
         pid = prop_of(n)
         pids = claimed if a.all_props else [pid]
         if a.props:
             pids = [p for p in pids if p in a.props.split(',')]
         pids = [p for p in pids if p in claimed]
-        if not pids:
-            continue
-        name, out = one(n, pids, a.tier)   # sequential: the check itself uses all cores and writes evidence/<pid>.json
+        if pids:
+            work.append((n, pids))
+
+    def done(name, out):
         res[name] = out
         for pid, o in out.items() if isinstance(out, dict) else []:
             if pid == 'apply':
-                print(name, out); break
+                print(name, out)
+                break
             tag = 'DETECTED' if o['exit'] == 1 else ('missed' if o['exit'] == 0 else 'ERROR')
             own = '' if pid == prop_of(name) else ' (other property)'
             print('%-22s %s %-8s%s %s' % (name, pid, tag, own, ' | '.join(o['lines'])[:260]), flush=True)
+    with cf.ThreadPoolExecutor(max_workers=max(1, a.j)) as ex:
+        futs = [ex.submit(one, n, pids, a.tier) for n, pids in work]
+        for f in cf.as_completed(futs):
+            name, out = f.result()
+            done(name, out)
     json.dump(res, open(os.path.join(ROOT, 'seeded', '_last_run.json'), 'w'), indent=1)
     allp = os.path.join(ROOT, 'seeded', '_results.json')
     acc = json.load(open(allp)) if os.path.exists(allp) else {}
